@@ -627,7 +627,10 @@ get_prefix_trait(has_traits_object *obj, PyObject *name, int is_set)
 
     if (trait != NULL) {
         assert(obj->ctrait_dict != NULL);
-        PyDict_SetItem((PyObject *)obj->ctrait_dict, name, trait);
+        if (PyDict_SetItem((PyObject *)obj->ctrait_dict, name, trait) < 0) {
+            Py_DECREF(trait);
+            return NULL;
+        }
         Py_DECREF(trait);
 
         if (has_traits_setattro(obj, trait_added, name) < 0) {
@@ -635,8 +638,17 @@ get_prefix_trait(has_traits_object *obj, PyObject *name, int is_set)
         }
 
         trait = get_trait(obj, name, 0);
+        if (trait == NULL) {
+            return NULL;
+        }
         /* We return a borrowed reference, to match dict_getitem. */
         Py_DECREF(trait);
+        if (trait == Py_None) {
+            /* The trait that was just stored cannot be found again (for
+               example the name's __hash__ or __eq__ misbehaves). */
+            PyErr_SetObject(PyExc_AttributeError, name);
+            return NULL;
+        }
     }
 
     return (trait_object *)trait;
